@@ -53,9 +53,11 @@ class HookListener:
     def accept(self):
         self.inj.point("accept:before")
         if not self.conns:
+            getattr(self, "note", lambda *a: None)("accept", self.name + 1, 0)
             raise OSError(errno.EAGAIN, "again")
         c = self.conns.pop(0)
         self.handed.append(c)
+        getattr(self, "note", lambda *a: None)("accept", self.name + 1, 1)
         self.inj.point("accept:after")          # the connection is off the listen queue now
         return c, ("127.0.0.1", 40000 + len(self.handed))
 
@@ -69,8 +71,9 @@ class HookListener:
         return 990 + self.name
 
 
-def run(nconn, nlisteners, at, sig="TERM", max_requests=0):
-    """-> dict(handed, answered, fired_at, npoints, served_after_signal)"""
+def run(nconn, nlisteners, at, sig="TERM", max_requests=0, rec=None):
+    """-> dict(handed, answered, fired_at, npoints, served_after_signal).  rec: a list that receives the events of
+    specs/SyncLoopTrace.tla; sig: "TERM" (handle_exit) or "PDEAD" (the parent's pid changes)"""
     from gunicorn import util
     calls = []
 
@@ -82,9 +85,17 @@ def run(nconn, nlisteners, at, sig="TERM", max_requests=0):
     w = cdrv.make_worker("sync", cfg, app)
     state = {"idle": 0}
 
+    def note(*e):
+        if rec is not None:
+            rec.append(list(e))
+
     def action():
         if sig == "TERM":
             w.handle_exit(signal.SIGTERM, None)
+            note("term")
+        elif sig == "PDEAD":
+            w.ppid = -1
+            note("pdead")
         state["signalled"] = True
     inj = Injector(at, action)
     socks = [HookSock([b"GET /%d HTTP/1.1\r\nHost: h\r\n\r\n" % i], inj) for i in range(nconn)]
@@ -92,25 +103,39 @@ def run(nconn, nlisteners, at, sig="TERM", max_requests=0):
     w.sockets = lsts
     w.PIPE = [991, 992]
     w.wait_fds = lsts + [991]
-    w.notify = lambda: None
+    w.notify = lambda: note("notify")
     w.ppid = os.getppid()
+    for k, lst in enumerate(lsts):
+        for _ in lst.conns:
+            note("connect", k + 1)
+        lst.note = note
+    orig_ipa = w.is_parent_alive
+
+    def ipa():
+        r = orig_ipa()
+        note("parent", 1 if r else 0)
+        return r
+    w.is_parent_alive = ipa
     old_select, old_coe = _select.select, util.close_on_exec
 
     def fake_select(r, wl, x, t=None):
         inj.point("select:before")
         ready = [l for l in lsts if l.conns]
         inj.point("select:after")
+        note("select", [l.name + 1 for l in ready])
         if ready:
             return (ready, [], [])
         state["idle"] += 1
-        if state["idle"] > 2:
-            w.alive = False
+        if state["idle"] > 2 and w.alive:
+            w.alive = False             # (the driver ends the run: a stop request)
+            note("term")
         return ([], [], [])
     _select.select = fake_select
     util.close_on_exec = lambda fd: None
     escaped = None
     try:
         w.run()
+        note("exit")
     except BaseException as e:   # noqa
         escaped = type(e).__name__
     finally:
@@ -140,3 +165,67 @@ def term_injection_traces(quick):
             metas.append({"wk": "sync-inproc", "listeners": nl, "at": at, "fired_at": r["fired_at"], "handed": r["handed"],
                           "answered": r["answered"], "escaped": r["escaped"], "nhup": 0, "requests": r["handed"]})
     return traces, metas
+
+
+def model_traces(ctx, clauses, prop):
+    """the real SyncWorker.run() against specs/SyncLoop.tla: the loop's events (notify / accept / select / parent check /
+    return) recorded for 1..3 listeners, with and without max_requests, a stop request or the parent's death at every
+    system-call boundary; TLC judges the clauses in `clauses` (the property's share) and follows the model (drift)."""
+    import tlc
+    groups = {}
+    for nl in (1, 2, 3):
+        for mr in (0, 2):
+            base = run(4, nl, at=-1, max_requests=mr)
+            npoints = base["npoints"]
+            step = 1 if not ctx.quick else max(1, npoints // 25)
+            for sig in ("TERM", "PDEAD"):
+                for at in [-1] + list(range(0, npoints, step)):
+                    rec = []
+                    r = run(4, nl, at, sig=sig, max_requests=mr, rec=rec)
+                    if r["escaped"]:
+                        rec.append(["escaped", r["escaped"]])
+                    groups.setdefault((nl, mr), []).append(({"cfg": {"nl": nl, "maxreq": mr, "pdead": sig == "PDEAD" and r["fired_at"] is not None}, "ev": rec},
+                                                           {"listeners": nl, "max_requests": mr, "sig": sig, "at": at, "fired_at": r["fired_at"]}))
+    n = 0
+    for (nl, mr), items in sorted(groups.items()):
+        cfgp = os.path.join(tlc.OUT, "cfg", "SyncLoopTrace_%d_%d.cfg" % (nl, mr))
+        os.makedirs(os.path.dirname(cfgp), exist_ok=True)
+        tlc.write_cfg(cfgp, spec="TSpec", constants={"NL": nl, "MaxConn": 99, "MaxReq": mr, "Dev": set()}, constraints=["Record"],
+                      postcondition="Post")
+        verdicts, stats = tlc.validate_batch("SyncLoopTrace", cfgp, [t for t, _ in items], name="SyncLoopTrace_%s_%d_%d" % (prop, nl, mr))
+        ctx.add_traces(len(items), stats)
+        n += len(items)
+        ndrift = 0
+        for (t, m), (v, stepn) in zip(items, verdicts):
+            if v == "ok":
+                continue
+            if str(v).startswith("drift"):
+                ndrift += 1
+                if ndrift <= 3:
+                    ctx.note_drift("sync loop (%s): %s at event %d: %s" % (m, v, stepn, t["ev"][max(0, stepn - 3):stepn]))
+                continue
+            if v in clauses:
+                ctx.violation("%s/%s/sync-loop,listeners=%s" % (prop, v, "1" if nl == 1 else ">1"),
+                              "%s: %s; events up to the failing one: %s" % (v, m, t["ev"][max(0, stepn - 8):stepn]), {"trace": t, "meta": m})
+    ctx.coverage["sync_loop_model_traces"] = n
+
+
+def design(ctx):
+    """TLC on specs/SyncLoop.tla: safety and liveness for 1..3 listeners, the two named deviations"""
+    import tlc
+    for nl, mc, mr, dev, expect in ((1, 3, 2, (), None), (2, 3, 0, (), None), (3, 4, 2, (), None),
+                                    (2, 3, 2, ("AcceptAllReady",), "AtMostOneAcceptAfterStop"),
+                                    (2, 3, 0, ("NoBeatPerListener",), "BeatBeforeEveryBlockingOp")):
+        label = "%d_%d_%d_%s" % (nl, mc, mr, "_".join(dev) or "design")
+        cfgp = os.path.join(tlc.OUT, "cfg", "SyncLoop_%s.cfg" % label)
+        os.makedirs(os.path.dirname(cfgp), exist_ok=True)
+        tlc.write_cfg(cfgp, spec="Spec", constants={"NL": nl, "MaxConn": mc, "MaxReq": mr, "Dev": set(dev)},
+                      invariants=["TypeOK", "BeatBeforeEveryBlockingOp", "AtMostOneAcceptAfterStop", "StopsAtLimit"],
+                      properties=["Leaves", "Served"] if not dev else [])
+        r = tlc.run("SyncLoop", cfgp, name="SyncLoop_" + label, workers=2, timeout=300)
+        if expect is None:
+            if not r.ok:
+                raise tlc.TLCError("SyncLoop design (%s) violates %s" % (label, r.violated))
+            ctx.add_model(r, "SyncLoop nl=%d" % nl)
+        else:
+            ctx.coverage.setdefault("deviation_runs", []).append({"dev": dev[0], "expected": expect, "reproduced": expect in r.violated})
